@@ -219,6 +219,8 @@ class C19(Check):
         for e in range(nep):
             r = rng.random()
             nl = 1 if r < 0.25 else (2 if r < 0.8 else 3)
+            if tier == "thorough" and rng.random() < 0.05:
+                nl = 4
             lanes = []
             for _ in range(nl):
                 ncmd = 1 if small else rng.choice([1, 1, 2, 2, 3])
@@ -623,6 +625,17 @@ class C19(Check):
                         scheds.add(
                             tuple([first] * a + [other_] * b + [first] *
                                   (top * 2)))
+            if tier != "quick" and init.get("state") in ("empty",
+                                                         "outdated"):
+                # 3 preemptions (every other position)
+                for first in (0, 1):
+                    other_ = 1 - first
+                    for a in range(0, top + 1, 2):
+                        for b in range(1, top + 1, 2):
+                            for c3 in range(1, top + 1, 2):
+                                scheds.add(tuple(
+                                    [first] * a + [other_] * b + [first] * c3 +
+                                    [other_] * (top * 2) + [first] * (top * 2)))
             for s in sorted(scheds):
                 c = copy.deepcopy(base)
                 c["sched"] = list(s)
